@@ -113,18 +113,57 @@ impl C04 {
     }
 }
 
+/// Hand-written conforming programs with shapes family S does not generate (a path that ends
+/// the program inside a function, a routine's data between its label and its code). They are
+/// small enough to be checked against the statement by reading them; the monitor does not run
+/// on them.
+pub fn fixed_conforming() -> Vec<(&'static str, &'static str)> {
+    vec![
+        ("abort-path-calls-a-routine", ".data\nmsg: .string \"negative\\n\"\n.text\nmain:\n    li a7, 5\n    ecall\n    jal ra, f\n    li a7, 1\n    ecall\n    li a7, 10\n    ecall\nf:\n    bltz a0, bad\n    addi a0, a0, 1\n    ret\nbad:\n    la a0, msg\n    jal ra, print\n    li a0, 1\n    li a7, 93\n    ecall\nprint:\n    li a7, 4\n    ecall\n    ret\n"),
+        ("abort-path-uses-a-saved-register", "main:\n    li a7, 5\n    ecall\n    jal ra, f\n    li a7, 1\n    ecall\n    li a7, 10\n    ecall\nf:\n    bltz a0, bad\n    addi a0, a0, 1\n    ret\nbad:\n    mv s0, a0\n    li a0, 33\n    li a7, 11\n    ecall\n    mv a0, s0\n    li a7, 93\n    ecall\n"),
+        ("routine-label-data-code", "main:\n    jal ra, greet\n    li a7, 10\n    ecall\ngreet:\n.data\nmsg: .string \"hi\\n\"\n.text\n    la a0, msg\n    li a7, 4\n    ecall\n    ret\n"),
+        ("branch-target-data-code", "main:\n    li a7, 5\n    ecall\n    beqz a0, done\n    li a7, 1\n    ecall\ndone:\n.data\nbye: .string \"bye\\n\"\n.text\n    la a0, bye\n    li a7, 4\n    ecall\n    li a7, 10\n    ecall\n"),
+    ]
+}
+
+impl C04 {
+    fn run_fixed(case: u64, i: usize, acc: &mut Acc) {
+        let (name, text) = fixed_conforming()[i];
+        acc.count("fixed_programs", 1);
+        let Ok(run) = imp::analyze_text(text) else {
+            acc.count("analysis_panicked", 1);
+            return;
+        };
+        acc.count("traces", 1);
+        if let Some(d) = run.diags.first() {
+            acc.violation(
+                format!("C04|fixed|spurious|{name}|{}", d.code),
+                case,
+                json!({"source": text, "case": case, "fixed_program": i, "diagnostics": run.diags.iter().map(|d| json!({"code": d.code, "title": d.title, "line": d.start_line + 1})).collect::<Vec<_>>()}),
+            );
+            return;
+        }
+        acc.outcome(&format!("clean:{name}"), case);
+    }
+}
+
 impl Property for C04 {
     fn id(&self) -> &'static str {
         "C04"
     }
     fn cases(&self, tier: Tier) -> u64 {
-        self.space(tier).count()
+        self.space(tier).count() + fixed_conforming().len() as u64
     }
     fn chunk(&self, _tier: Tier) -> u64 {
         600
     }
     fn run_case(&self, tier: Tier, case: u64, acc: &mut Acc) {
         acc.count("cases", 1);
+        let n = self.space(tier).count();
+        if case >= n {
+            Self::run_fixed(case, (case - n) as usize, acc);
+            return;
+        }
         match self.space(tier).get(case) {
             Some(sp) => {
                 if case % 3001 == 0 {
@@ -136,12 +175,20 @@ impl Property for C04 {
         }
     }
     fn show(&self, tier: Tier, case: u64) -> String {
+        let n = self.space(tier).count();
+        if case >= n {
+            return fixed_conforming()[(case - n) as usize].1.to_string();
+        }
         match self.space(tier).get(case) {
             Some(sp) => sp.program.text(),
             None => "not a member".into(),
         }
     }
     fn replay(&self, w: &Value, acc: &mut Acc) {
+        if let Some(i) = w["fixed_program"].as_u64() {
+            Self::run_fixed(w["case"].as_u64().unwrap_or(0), i as usize, acc);
+            return;
+        }
         if let Some(case) = w["case"].as_u64() {
             for tier in [Tier::Quick, Tier::Thorough] {
                 if case < self.cases(tier) {
